@@ -947,10 +947,28 @@ func fSlicesClone(m *Machine, fr *frame, pos token.Pos, args []value) value {
 func fErrorsIs(m *Machine, fr *frame, pos token.Pos, args []value) value {
 	e, t := errOf(args[0]), errOf(args[1])
 	if t == nil {
-		// target is not an engine error (nil or foreign): identity only
-		return m.truth(m.eqnil(m.shared.errorIface, args[0], args[1]))
+		// target is not an engine error (nil, or a foreign value such as a
+		// syscall.Errno): interface equality along the wrap chain
+		return m.errChainHas(args[0], args[1], 0)
 	}
 	return errIs(e, t)
+}
+
+func (m *Machine) errChainHas(v, target value, depth int) bool {
+	if depth > 32 {
+		return false
+	}
+	if m.truth(m.eqnil(m.shared.errorIface, v, target)) {
+		return true
+	}
+	if e := errOf(v); e != nil {
+		for _, w := range e.wraps {
+			if m.errChainHas(w, target, depth+1) {
+				return true
+			}
+		}
+	}
+	return false
 }
 
 func fErrorsJoin(m *Machine, fr *frame, pos token.Pos, args []value) value {
